@@ -176,9 +176,24 @@ def _regex_chars(model, fi, call):
     return None
 
 
+def _walk_disjunctive(expr):
+    """Sub-expressions whose truth implies the truth of a disjunction
+    `expr` is built from: a conjunction `a and b` is not descended into (the
+    test `'&' in t and other(t)` does not fire for every string with '&')."""
+    todo = [expr]
+    while todo:
+        e = todo.pop()
+        if isinstance(e, ast.BoolOp) and isinstance(e.op, ast.And) and \
+                sum(1 for v in e.values
+                    if not isinstance(v, ast.Constant)) > 1:
+            continue
+        yield e
+        todo.extend(ast.iter_child_nodes(e))
+
+
 def _chars_in(model, fi, expr):
     chars = set()
-    for p in ast.walk(expr):
+    for p in _walk_disjunctive(expr):
         if isinstance(p, ast.Compare) and len(p.ops) == 1 and \
                 isinstance(p.ops[0], ast.In) and \
                 isinstance(p.left, ast.Constant) and \
@@ -899,6 +914,48 @@ def rule_skip_condition(model):
     return r
 
 
+def rule_text_identity(model):
+    r = RuleResult('C03.R8', 'the conversion every inserted value passes '
+                   'through (ustr) hands a str back untouched: each branch '
+                   'taken for text returns the very object it tested (the '
+                   'escaped output is the escaping of the value, nothing '
+                   'is substituted or normalised on the way)')
+    fi = model.func('ustr', 'ustr')
+    n = 0
+    for x in own_nodes(fi.node):
+        if not (isinstance(x, ast.If) and isinstance(x.test, ast.Call) and
+                isinstance(x.test.func, ast.Name) and
+                x.test.func.id == 'isinstance' and len(x.test.args) == 2
+                and isinstance(x.test.args[0], ast.Name)):
+            continue
+        types = x.test.args[1]
+        names = [norm(e) for e in (types.elts if isinstance(
+            types, ast.Tuple) else [types])]
+        if 'str' not in names:
+            continue
+        n += 1
+        var = x.test.args[0].id
+        body = [s_ for s_ in x.body if not (
+            isinstance(s_, ast.Expr) and isinstance(s_.value, ast.Constant))]
+        ok = len(body) == 1 and isinstance(body[0], ast.Return) and \
+            isinstance(body[0].value, ast.Name) and body[0].value.id == var
+        r.instance(fi.where, x.test, 'returned untouched' if ok
+                   else 'TRANSFORMED')
+        if not ok:
+            r.finding(fi.where, f'if {norm(x.test)}: '
+                      f'{norm(body[0]) if body else "..."}',
+                      'a text value does not come back from ustr() as it '
+                      'went in: html_quote() and Var.render start with '
+                      'ustr(value), so the output is no longer the '
+                      'escaping of the value (and the fast path, which '
+                      'skips ustr, disagrees with the full path)',
+                      node=x, ctx=fi)
+    if n < 1:
+        raise AnalysisError('C03.R8: the text branch of ustr() was not '
+                            'found')
+    return r
+
+
 def rule_frozen_options(model):
     """fmt=html-quote / html_quote rewritten into the options after the
     modifier list was derived: the full render path never quotes."""
@@ -907,7 +964,8 @@ def rule_frozen_options(model):
 
 
 RULES = [rule_one_escaper, rule_fast_path, rule_entity, rule_identity,
-         rule_per_block, rule_frozen_options, rule_skip_condition]
+         rule_per_block, rule_frozen_options, rule_skip_condition,
+         rule_text_identity]
 EXPLANATION = (
     'Resolved-callee query for the escaper on all quoting paths; set '
     'inclusion between the characters the fast path tests and the '
